@@ -55,6 +55,7 @@ struct FdEnt {
     bool canfd_enabled = false;
     std::vector<struct sock_filter> bpf;  // SO_ATTACH_FILTER: classic BPF program run on every datagram before it is queued
     std::vector<uint8_t> cork;    // UDP: data sent with MSG_MORE waits here for the send that completes the datagram
+    bool can_join_filters = false;  // CAN_RAW_JOIN_FILTERS: a frame must match every filter, not one of them
     std::string bind_dev;        // SO_BINDTODEVICE
     bool connected = false;      // UDP: connect() was called - ICMP errors for what this socket sent are reported to it
     int pending_err = 0;         // ... as the error of its next send or receive
